@@ -182,7 +182,8 @@ def renderProj (pn : Bytes → NumC) (id : String) (pi : Nat) (p : Proj) (stream
   let first := distinct.take 6
   let eq := if n == 0 then "-" else
     ".".intercalate (first.map fun a => String.ofList (first.map fun b => bit (equalRow (p.vals a) (p.vals b))))
-  s!"obs {id} p={pi} fields={showHexList p.fieldNames} flat={showHexList (flat.map (·.name))} n={n} ids={showNats ids} get={get} str={str} less={less} sorts={sorts} ns={ns} nsr={nsr} nsp={nsp} eq={eq}"
+  let strv := if n == 0 then "-" else ",".intercalate (distinct.map fun k => (p.keyStringValues k).toHex)
+  s!"obs {id} p={pi} fields={showHexList p.fieldNames} flat={showHexList (flat.map (·.name))} n={n} ids={showNats ids} get={get} str={str} less={less} sorts={sorts} ns={ns} nsr={nsr} nsp={nsp} eq={eq} strv={strv}"
 
 def obsLines (pn : Bytes → NumC) (raw : List (Bytes × String)) (id : String) (ops : List Op) : List String :=
   let st := run weakHash ops
@@ -215,7 +216,9 @@ def specProj (pn : Bytes → Spec.ParseNum.SNum) (id : String) (specific : List 
     String.ofList ((List.range cols.length).map fun j =>
       bit ((distinct.getD a []).getD j [] != (distinct.getD b []).getD j []))
   let nsp := if pairs.isEmpty then "-" else ".".intercalate pairs
-  s!"spec {id} p={pi} flat={showHexList (cols.map (·.name))} n={n} ids={showNats ids} get={get} less={less} sorts={sorts} nsp={nsp}"
+  let str := if n == 0 then "-" else ",".intercalate (distinct.map fun t => (tupleString true cols t).toHex)
+  let strv := if n == 0 then "-" else ",".intercalate (distinct.map fun t => (tupleString false cols t).toHex)
+  s!"spec {id} p={pi} flat={showHexList (cols.map (·.name))} n={n} ids={showNats ids} get={get} less={less} sorts={sorts} nsp={nsp} str={str} strv={strv}"
 
 open Spec.Keys in
 def specLines (raw : List (Bytes × String)) (id : String) (ops : List Op) : List String :=
